@@ -13,6 +13,7 @@ pub enum Case {
     Mass(crate::mass::Case),
     Trn(crate::trn::Case),
     Dsp(crate::dsp::Case),
+    Thr(crate::thr::Case),
 }
 
 impl Case {
@@ -24,10 +25,23 @@ impl Case {
             Case::Mass(c) => c.hash_seed,
             Case::Trn(c) => c.hash_seed,
             Case::Dsp(c) => c.hash_seed,
+            Case::Thr(c) => c.hash_seed(),
+        }
+    }
+    pub fn world_name(&self) -> &'static str {
+        match self {
+            Case::Pt(_) => "pt",
+            Case::Trk(_) => "trk",
+            Case::Val(_) => "val",
+            Case::Mass(_) => "mass",
+            Case::Trn(_) => "trn",
+            Case::Dsp(_) => "dsp",
+            Case::Thr(_) => "thr",
         }
     }
     pub fn size(&self) -> usize {
         match self {
+            Case::Thr(c) => c.size(),
             Case::Dsp(c) => c.trains.len() * 10 + c.walk_plans as usize + c.trains.iter().map(|t| t.spec.consist.len() + t.spec.cars.len() + (t.depart != (t.depart / 100.0).round() * 100.0) as usize).sum::<usize>() + c.links.iter().map(|l| l.link_idxs_lockout.len() + l.headings.len()).sum::<usize>(),
             Case::Trn(c) => c.crashes.len() + c.interval_changes.len() + c.route.len() * 4 + c.train.consist.len() + c.train.cars.len() + c.train.cars.iter().map(|x| (x.n as usize) / 8).sum::<usize>()
                 + match &c.kind { crate::trn::Kind::SetSpeed { trace, .. } => trace.len(), crate::trn::Kind::LimitManual { auths, .. } => 3 + auths.len() * 2, crate::trn::Kind::LimitTimed { .. } => 3, _ => 1 }
@@ -76,7 +90,13 @@ const DSP_REAL: &[&str] = &["make_est_times (real code, incl. thousands of Speed
 const DSP_STUB: &[&str] = &["the dispatcher's scheduler is NOT replaced: its schedule space is sampled through departure times (incl. ties), train order, lengths, directions, topology and lockouts", "no fault is injected into the dispatcher (it has no I/O); its own rewinds / re-routes are the fault-like events, counted by probes"];
 const DSP_RULE: &str = "a case = generated corridor (0-5 sidings that fit / do not fit the trains, optional lockout declarations) + 1-10 generated trains in both directions with departure times incl. ties; distinct = distinct hash of (scenario class, probes hit, the sequence of (train, outcome) moves the dispatcher made); non-trivial = at least 2 trains";
 
+const THR_REAL: &[&str] = &["LocomotiveSimulationVec::walk and every LocomotiveSimulation::walk/step under it (real code)", "the worlds trn / dsp / trk / val re-executed under different RandomState keys (real code)", "rayon branch of LocomotiveSimulationVec::walk in local pools of 1, 2, 4, 16 threads (real code, uncontrolled threads: observation, labelled as such)"];
+const THR_STUB: &[&str] = &["rayon's pool in the controlled runs: executor seam H2 reproducing try_for_each's contract on shuttle threads (W workers claim from a shared queue; after an error no new claims, in-flight elements finish)", "thread scheduler: shuttle Random / PCT, seeded", "getrandom(2): interposed, RandomState keys derived from the case"];
+const THR_RULE: &str = "a case = (a) batch of 1-12 generated locomotive simulations (some failing at a seeded step) + worker count 1-16 + scheduler (Random or PCT depth 2-4) + 24 (quick) / 60 (thorough) seeded schedules, or (b) a case of world trn/dsp/trk/val executed under hash keys A, A, B, or (c) a batch on a real rayon pool; distinct = distinct hash of (scenario class, fault kinds, probes, first 8 distinct claim orders seen); non-trivial = at least 2 elements and 2 workers (a, c) / the inner case's own rule (b)";
+
 pub const PROPS: &[PropInfo] = &[
+    PropInfo { id: "C18", world: "thr", level: "exploration", quick_runs: 900, thorough_runs: 60_000, rule: THR_RULE, real: THR_REAL, stub: THR_STUB,
+        assumptions: &["the controlled runs go through the executor seam, not through rayon's own call expression; the real rayon branch is only observed (DESIGN 6)", "hash-order control relies on std resolving getrandom as a weak symbol (start-up self-test guards it)", "data races in safe Rust are excluded by the type system: what a schedule can expose is hidden shared state and order-dependent reduction"] },
     PropInfo { id: "C04", world: "dsp", level: "exploration", quick_runs: 700, thorough_runs: 40_000, rule: DSP_RULE, real: DSP_REAL, stub: DSP_STUB,
         assumptions: &["times compared with 1e-6 s, offsets with 1e-6 m of slack", "an authority's window starts at its first-seen arrive_entry (the dispatcher shrinks it when a train exits)", "scenarios whose est-time construction fails are discarded and counted (discarded.setup.*)"] },
     PropInfo { id: "C05", world: "dsp", level: "exploration", quick_runs: 700, thorough_runs: 40_000, rule: DSP_RULE, real: DSP_REAL, stub: DSP_STUB,
@@ -127,6 +147,17 @@ pub fn info(prop: &str) -> Option<&'static PropInfo> {
     PROPS.iter().find(|p| p.id == prop)
 }
 
+/// a case of the world that serves `world_prop`, generated with another property's focus
+pub fn generate_world(world_prop: &str, focus: &str, rng: &mut Rng, thorough: bool) -> Case {
+    match info(world_prop).map(|i| i.world) {
+        Some("trk") => Case::Trk(crate::trk::generate(rng, focus, thorough)),
+        Some("val") => Case::Val(crate::val::generate(rng, focus, thorough)),
+        Some("trn") => Case::Trn(crate::trn::generate(rng, focus, thorough)),
+        Some("dsp") => Case::Dsp(crate::dsp::generate(rng, focus, thorough)),
+        _ => Case::Pt(crate::pt::generate(rng, focus, thorough)),
+    }
+}
+
 pub fn generate(prop: &str, rng: &mut Rng, thorough: bool) -> Case {
     // some properties span several worlds: the world of a run is one more seeded choice
     let world = match prop {
@@ -141,6 +172,7 @@ pub fn generate(prop: &str, rng: &mut Rng, thorough: bool) -> Case {
         Some("mass") => Case::Mass(crate::mass::generate(rng, prop, thorough)),
         Some("trn") => Case::Trn(crate::trn::generate(rng, prop, thorough)),
         Some("dsp") => Case::Dsp(crate::dsp::generate(rng, prop, thorough)),
+        Some("thr") => Case::Thr(crate::thr::generate(rng, prop, thorough)),
         _ => panic!("no world for property {prop}"),
     }
 }
@@ -153,6 +185,7 @@ pub fn execute(case: &Case, ctx: &mut Ctx) {
         Case::Mass(c) => crate::mass::execute(c, ctx),
         Case::Trn(c) => crate::trn::execute(c, ctx),
         Case::Dsp(c) => crate::dsp::execute(c, ctx),
+        Case::Thr(c) => crate::thr::execute(c, ctx),
     }
 }
 
@@ -162,6 +195,7 @@ pub fn shrink(case: &Case, v: &Violation) -> Vec<Case> {
         Case::Mass(c) => crate::mass::shrink(c).into_iter().map(Case::Mass).collect(),
         Case::Trn(c) => crate::trn::shrink(c).into_iter().map(Case::Trn).collect(),
         Case::Dsp(c) => crate::dsp::shrink(c).into_iter().map(Case::Dsp).collect(),
+        Case::Thr(c) => crate::thr::shrink(c).into_iter().map(Case::Thr).collect(),
         Case::Pt(c) => crate::pt::shrink(c).into_iter().map(Case::Pt).collect(),
         Case::Trk(c) => crate::trk::shrink(c).into_iter().map(Case::Trk).collect(),
     }
@@ -180,6 +214,7 @@ pub fn panic_property(case: &Case, layer: &str, location: &str) -> Option<&'stat
         // building a path must never panic: speed-profile code -> C13, everything else in this world -> C06
         Case::Val(_) => Some("C16"),
         Case::Mass(_) => Some("C20"),
+        Case::Thr(_) => Some("C18"),
         // by the layer the driver was in: est-time construction steps trains (C03), the graph code is C15's,
         // everything inside run_dispatch is C05's ("never aborts on inputs accepted by validation and est-time construction")
         Case::Dsp(_) => match layer {
